@@ -192,7 +192,8 @@ def _run_variant_all(args):
 
 def main(argv: List[str]) -> int:
     verbose = "-v" in argv
-    argv = [a for a in argv if a != "-v"]
+    write = "--write" in argv
+    argv = [a for a in argv if a not in ("-v", "--write")]
     which = argv[0] if argv else "all"
     ids = argv[1:]
     if which == "rule":
@@ -215,6 +216,15 @@ def main(argv: List[str]) -> int:
                     if r.get("why"):
                         print("     ", r["why"])
         print(f"== {kind}: {n_good}/{len(res)} {good}")
+        if write and not ids:
+            # (development record, regenerated on request only - never by a registered check)
+            with open(f"{V}/{kind}/EVAL_current.txt", "w", encoding="utf8") as fp:
+                for r in res:
+                    if kind == "seeded":
+                        fp.write(f"{r['id']} exit={1 if r['status'] == 'fired' else 0} rules={','.join(r.get('rules', []))}, analysis_errors={len(r.get('errors', {}))} other_props=[{' '.join(r.get('other_props', []))} ]\n")
+                    else:
+                        what = "silent" if r["status"] == "silent" else "ALARM " + "; ".join(sorted({t.split(' ', 2)[1] for t in r.get('new', [])} | {'ERR:' + k for k in r.get('errors', {})}))
+                        fp.write(f"{r['id']} {what}\n")
         bad += len(res) - n_good
     return 1 if bad else 0
 
